@@ -103,7 +103,7 @@ def ownership(ctx, rep, cfgs=None):
             for i in f.all_insts():
                 if i.op == 'alloca' and i.ops and i.ops[0]['k'] != 'c':
                     rep.fail('no variable-length stack allocation', i.loc, f.name)
-        rep.instances(len(allocs), 4, 'dep:alloc call sites')
+        rep.instances(len(allocs), 1, 'dep:alloc call sites')
         rep.instances(len(frees), 1, 'dep:free call sites')
         free_fns = sorted(set(f.name for f, _ in frees))
         rep.check(len(free_fns) == 1, 'exactly one function calls the injected free', frees[0][1].loc, str(free_fns),
@@ -155,7 +155,7 @@ def ownership(ctx, rep, cfgs=None):
             for w in feasible_walks(P, f):
                 npaths += 1
                 _typestate(P, f, w, rep, rel, cap, relfn, size, OK, EMEM, wrappers)
-        rep.instances(len(ctors), 4, 'allocating functions')
+        rep.instances(len(ctors), 2, 'allocating functions')
         if npaths < 2 * len(ctors):
             raise AnalysisBroken('fewer than two feasible paths per allocating function: path enumeration is vacuous')
         rep.info.setdefault('paths', {})[cfg] = npaths
